@@ -5,6 +5,7 @@ import Jwt.SetGet
 import Jwt.Builder
 import Jwt.Lemmas.Pipeline
 import Jwt.Lemmas.PipelineBuilder
+import Jwt.Lemmas.PipelineClosed
 /-!
 # C14 — error reporting contract: failure is always flagged and explained
 
@@ -132,5 +133,27 @@ code has written the builder's message itself. -/
 theorem C14_generate_exits_are_source (env : Env) (b : Builder) :
     ((builderGenerateGen env b.cfg).2.2 = true ↔ ∀ e, (generateCore env b.cfg).1 ≠ .direct e) :=
   (builderGenerate_generated env b).2
+
+/-- **No silent failure, in the code as written.** Over every combination of the tests of the *generated*
+`jwt_checker_verify` and `jwt_builder_generate` (kernel evaluation): verify returns 0 only on its last exit with the
+checker's flag at 0, generate returns a token only when every step before `jwt_encode_str` succeeded; and every failing
+exit (other than a NULL object, or no memory for the per-call object in generate) has written a message to the object,
+copied the per-call object's error state to it, or -- verify's admission exit -- left the message to `__setkey_check`
+(`C14_admission_messages` shows that one writes it). -/
+theorem C14_no_silent_failure_is_source :
+    (∀ a b c d e f g h i : Bool,
+      let reach := !a && !b && !c && !d && !e && (f || (!g && h)) && !i
+      (Jwt.Generated.Pipeline.checkerVerify a b c d e f g h i 0).1 = (if reach then 0 else 1) ∧
+      ((!a && !reach) = true → (Jwt.Generated.Pipeline.checkerVerify a b c d e f g h i 0).2.1 = true ∨
+        (Jwt.Generated.Pipeline.checkerVerify a b c d e f g h i 0).2.2 = true ∨ i = true)) ∧
+    (∀ a b c d iat is_ nbf ns exp es cbn cbr sk hs : Bool,
+      let ok := !a && !b && !c && !d && (!iat || is_) && (!nbf || ns) && (!exp || es) && !(!cbn && cbr) && !sk && !hs
+      (Jwt.Generated.Pipeline.builderGenerate a b c d iat is_ nbf ns exp es cbn cbr sk hs 1).1 = (if ok then 1 else 0) ∧
+      ((!a && !b && !ok) = true → (Jwt.Generated.Pipeline.builderGenerate a b c d iat is_ nbf ns exp es cbn cbr sk hs 1).2.1 = true ∨
+        (Jwt.Generated.Pipeline.builderGenerate a b c d iat is_ nbf ns exp es cbn cbr sk hs 1).2.2 = true)) :=
+  ⟨fun a b c d e f g h i => ⟨(Jwt.Generated.Pipeline.checkerVerify_closed a b c d e f g h i).1, (Jwt.Generated.Pipeline.checkerVerify_closed a b c d e f g h i).2.2⟩,
+   fun a b c d iat is_ nbf ns exp es cbn cbr sk hs =>
+     ⟨(Jwt.Generated.Pipeline.builderGenerate_closed a b c d iat is_ nbf ns exp es cbn cbr sk hs).1,
+      (Jwt.Generated.Pipeline.builderGenerate_closed a b c d iat is_ nbf ns exp es cbn cbr sk hs).2.2⟩⟩
 
 end Jwt.Props.C14
